@@ -58,6 +58,9 @@ F: Dict[str, Dict[str, Any]] = {
     'pkg-sections':  {'__files__': {'pk/secpkg/__init__.py': '"""\nIntro.\n\nOverview\n========\n\nText.\n\nNotes\n=====\n\nMore.\n"""\nclass PkK:\n    "k"\n', 'pk/secpkg/child.py': '"""Child."""\nclass ChK:\n    "c"\n',
                                     'pk/secpkg/inner/__init__.py': '"""Inner.\n\nInnerTitle\n==========\n\nText.\n"""\n', 'pk/secpkg/inner/leaf.py': '"leaf"\n'}},
     'class-sections': {'pk/a.py': 'class SecC:\n    """\n    Intro.\n\n    Howto\n    =====\n\n    Text.\n    """\n    class SecN:\n        """\n        N.\n\n        NTitle\n        ======\n\n        Text.\n        """\n        def nm(self): "nm"\n    def cm(self): "cm"\n'},
+    'main-mod':      {'__files__': {'pk/__main__.py': '"""Entry point."""\ndef main(): "L{main}"\nclass Cli:\n    def run(self): pass\n', 'pk/sub/__main__.py': '"""Sub entry."""\n'}},
+    'under-names':   {'pk/a.py': '_u = 1\n"""u doc"""\ndef __halfdunder(): "h"\nclass __Mangled:\n    def pub(self): "p"\ndef __pub__(): "dunder"\nclass _U2:\n    class In:\n        "in"\n',
+                      '__files__': {'pk/_privpkg/__init__.py': '"""Private package."""\n', 'pk/_privpkg/pubchild.py': '"""Public child of a private package."""\nclass PC:\n    "pc"\n'}},
     'many-mods':     {'__files__': {f'pk/many/m{i:02d}.py': f'"""m{i}."""\n' for i in range(52)} | {'pk/many/__init__.py': '"""Many."""\n'}},
 }
 NAMES = list(F)
